@@ -326,6 +326,10 @@ def run(ctx):
     for k in range(n_cnt):
         n = rng.choice([0, 1, 2, 3, 5, 10, 40, 150, 400]) if k % 3 else rng.randint(0, 120)
         job = {"kind": "counter", "items": gen_counter(rng, n)}
+        vals = [v for _, v in job["items"]]
+        if k % 2 == 0 and len(set(vals)) >= 2:
+            # the same keys with the values rotated: another table whose file has the same size
+            job["items2"] = [[key, v] for (key, _), v in zip(job["items"], vals[1:] + vals[:1])]
         if k % 7 == 0:
             job["header"] = rng.choice(["k\tf\n", "word\tcount\tcomment\n", "# only one line\n", "ключ\tчастота\n"])
         cjobs.append(job)
@@ -365,6 +369,19 @@ def run(ctx):
         if not v["arg_unchanged"]:
             rep.violation("save_counter modified its argument", {"case": desc})
             return
+        if "items2" in j:
+            rep.bump("overwrite_same_path_histories", 1)
+            l1, l2 = v["load"], v.get("load2")
+            if l1["status"] == "ok" and {a: b for a, b in l1["value"]} == {a: b for a, b in items}:
+                # the table round-trips, so the table with the same keys saved over it must too
+                if l2 is None or l2["status"] != "ok" or {a: b for a, b in l2["value"]} != {a: b for a, b in j["items2"]}:
+                    d2 = dict(desc)
+                    d2["second_table_saved_to_the_same_path"] = j["items2"][:40]
+                    d2["loaded"] = trim(l2) if l2 else None
+                    rep.violation("a second table saved to the same path and loaded again is not that table",
+                                  {"correspondence": "X-counter/load", "theorems": ["C20_counter_roundtrip"],
+                                   "case": d2})
+                    return
         texts.append(v["text"])
     lmodel = run_models([(2003, cps(t)) for t in texts + HAND_FILES])
     loads = [r["value"]["load"] for r in cimpl[:len(cjobs)]] + cimpl[len(cjobs):]
